@@ -19,6 +19,9 @@ META = {
     "C07": {"technique": "property-based testing with fault-injecting expression and step generators, worker-process crash oracle",
             "level_text": "Generated-input search: programs whose expressions fault at run time and whose steps misbehave are executed in a worker process; process death or a recovered panic is a violation, and so is returning an output whose expression cannot be evaluated.",
             "level_note": TB + "; crashes are observed as worker death (exit status + stderr) or recovered panic values"},
+    "C08": {"technique": "property-based testing: generated references to every engine-generated output + schema validation oracle",
+            "level_text": "Generated-input search: every stage output an expression can name is referenced (whole and by field) under the outcome that produces it; violations are 'bug:' consistency errors, returned data that does not unserialize with the declared output schema, or data whose shape differs from the reference.",
+            "level_note": TB + "; stage inputs are validated by the real plugin-side ATP server (an ill-typed input surfaces as a crash/bug error)"},
 }
 
 NOT_APPLICABLE = []
